@@ -3,7 +3,7 @@
    [gser]/[gser_top] (C05/Model.v) of zvariant::gvariant::Serializer; [gde] (C05/DeModel.v) models the Deserializer.
    Statements only; proofs are in C05/SerProofs.v, C05/Widths.v, C05/Refuted.v. *)
 From ZV Require Import Base.Bytes Base.Res Base.Sig DBus.Val DBus.Spec DBus.Ser C05.Val C05.Spec C05.Model C05.DeModel
-  C05.Classes C05.Widths C05.SerProofs C05.Refuted.
+  C05.Classes C05.Widths C05.SerProofs C05.DeProofs C05.Refuted.
 Local Open Scope N_scope.
 
 (* The property at full strength: for every byte order, start offset and well-formed value within the nesting limits
@@ -121,3 +121,37 @@ Print Assumptions C04_gv_struct_offset_underflow_refuted.
 Theorem C04_gv_variant_offset_underflow_refuted : exists b : bytes, gde_value_top LE 0 b [] = Panic PArith.
 Proof. exists w_panic_variant. exact c04_variant_offset_panics. Qed.
 Print Assumptions C04_gv_variant_offset_underflow_refuted.
+
+(* ---- C04, GVariant half.  Every slice, index, subtraction and unwrap of the decode path is an explicit Panic branch of
+   the model.  For every byte order, offset, signature, descriptor table and input (below 2^64 bytes): the three entry
+   points (Value, Structure for a dynamic signature, typed) panic only (a) in the signature parser's recursion, and then
+   the input is longer than stack_limit = 50000 bytes, or (b) with the subtraction of read_last_offset_from_buffer in
+   StructureDeserializer, and then the input has at least 256 bytes. ---- *)
+Theorem C04_gv_panic_classes : forall (e : endian) (pos : N) (g : sig) (b : bytes) (fds : list N) (p : panic),
+  len b < 18446744073709551616 ->
+  gde_value_top e pos b fds = Panic p \/ gde_struct_top e pos g b fds = Panic p \/ gde_typed_top e pos g b fds = Panic p ->
+  (p = PStack /\ stack_limit < len b) \/ (p = PArith /\ 256 <= len b).
+Proof. exact gde_tops_panics. Qed.
+Print Assumptions C04_gv_panic_classes.
+
+(* hence no panic at all on inputs shorter than 256 bytes (Known_C04gv b := 256 <= len b) *)
+Theorem C04_gv_nopanic_partial : forall (e : endian) (pos : N) (g : sig) (b : bytes) (fds : list N) (p : panic),
+  len b < 256 ->
+  gde_value_top e pos b fds <> Panic p /\ gde_struct_top e pos g b fds <> Panic p /\ gde_typed_top e pos g b fds <> Panic p.
+Proof. exact gde_tops_small_nopanic. Qed.
+Print Assumptions C04_gv_nopanic_partial.
+
+(* and with the proposed repair (the framing offset of a tuple member read with a checked window, [read_last_checked])
+   the decoder does not panic on any input, for any recursion fuel, apart from the parser's native stack *)
+Theorem C04_gv_repaired_nopanic : forall (fuel : nat) (e : endian) (pos : N) (g : sig) (b : bytes) (fds : list N) (p : panic),
+  len b < 18446744073709551616 ->
+  gde_repaired_top fuel e pos g b fds = Panic p -> p = PStack /\ stack_limit < len b.
+Proof. exact gde_repaired_top_nopanic. Qed.
+Print Assumptions C04_gv_repaired_nopanic.
+
+(* the general form, for every decoder state with pos <= len < 2^64 and every recursion fuel *)
+Theorem C04_gv_step : forall (fuel : nat) (st : dst) (p : panic),
+  r_pos st <= r_len st /\ r_len st < 18446744073709551616 ->
+  gde fuel st = Panic p -> (p = PStack /\ stack_limit < r_len st) \/ (p = PArith /\ 256 <= r_len st).
+Proof. exact gde_panics. Qed.
+Print Assumptions C04_gv_step.
